@@ -9,9 +9,9 @@ Import ListNotations.
 (* 1. Rendering any tree with only the parentheses the (regenerated) table requires and parsing the
       tokens yields that tree again; same for the fully parenthesised rendering; the parse is unique. *)
 Theorem C02_roundtrip_min (t : exprG) : parses_toG (flatG false t) t.
-Proof. exact (roundtrip _ _ _ _ _ _ _ _ _ _ _ _ _ _ _ _ _ false t). Qed.
+Proof. exact (roundtrip _ _ _ _ _ _ _ _ _ _ _ _ _ _ _ _ _ (fun _ _ => false) (fun _ _ => false) (fun _ => false) t). Qed.
 Theorem C02_roundtrip_full (t : exprG) : parses_toG (flatG true t) t.
-Proof. exact (roundtrip _ _ _ _ _ _ _ _ _ _ _ _ _ _ _ _ _ true t). Qed.
+Proof. exact (roundtrip _ _ _ _ _ _ _ _ _ _ _ _ _ _ _ _ _ (fun _ _ => true) (fun _ _ => true) (fun _ => false) t). Qed.
 Theorem C02_parse_unique (ts : list tokG) (t1 t2 : exprG) : parses_toG ts t1 -> parses_toG ts t2 -> t1 = t2.
 Proof. exact (parses_to_unique _ _ _ _ _ _ _ _ _ _ _ _ _ _ _ _ _ ts t1 t2). Qed.
 
